@@ -55,6 +55,18 @@ class TransformPolicy(P.PrinterPolicy):
     def recursion_limit(self, interp, spec):
         return 1
 
+    def str_method(self, interp, recv, nm, args, kwargs):
+        # dotted.name.split('.') : only element 0 (the root module) is used
+        if nm == 'split' and z3.is_expr(recv) and args == ['.']:
+            ctx = interp.ctx
+            root = z3.String('root_module_of_' + recv.decl().name())
+            dotted = z3.Contains(recv, z3.StringVal('.'))
+            ctx.assume(z3.Implies(z3.Not(dotted), root == recv))
+            ctx.assume(z3.Implies(dotted, z3.PrefixOf(z3.Concat(root, z3.StringVal('.')), recv)))
+            ctx.assume(z3.Not(z3.Contains(root, z3.StringVal('.'))))
+            return [root]
+        return P.PrinterPolicy.str_method(self, interp, recv, nm, args, kwargs)
+
     def on_write(self, interp, obj, name, value):
         if not hasattr(self, 'writes'):
             self.writes = []
@@ -193,9 +205,22 @@ def task_suite_filter(kind, module):
                 crs.append((args[1], b))
                 return b
             interp.hooks[T + 'remove_debug:RemoveDebug.can_remove'] = can_remove_hook
+        guard_calls = []
+
+        def guard_hook(it, f, args, kwargs):
+            guard_calls.append(list(args[1:]))
+            return args[2]
+        interp.hooks[ST + ':SuiteTransformer.without_new_docstring'] = guard_hook
         r = interp.call(interp.getattr(o, 'suite'), [lst, parent], {})
         pruned.update(interp.pruned)
         pd = ctx.data(parent)
+        if isinstance(r, SymIter) and kind != 'RemoveLiteralStatements':
+            # C01/C05: dropping the statements in front of a string statement must not turn it into the docstring; the filtered list goes through
+            # SuiteTransformer.without_new_docstring (contract: task_docstring_guard) together with the unfiltered list and the owner of the block
+            ctx.check(name + '/filtered-list-goes-through-the-docstring-guard',
+                      len(guard_calls) == 1 and guard_calls[0][0] == lst and guard_calls[0][1] is r and guard_calls[0][2] == parent, kind='post',
+                      detail='[needs-witness] a string statement that follows a dropped statement becomes the first statement of the body, i.e. the docstring '
+                             '(calls of the guard: %d)' % len(guard_calls))
         if isinstance(r, SymIter):
             ctx.check(name + '/result-filters-the-given-list', r.src == lst, kind='post')
             e = interp.list_elem(lst, ('spec',))
@@ -230,6 +255,72 @@ def task_suite_filter(kind, module):
     ex = Explorer()
     ex.explore(run)
     return finish(ex, name, [source.describe('%s%s:%s.suite' % (T, module, kind))], pruned)
+
+
+def task_docstring_guard():
+    """SuiteTransformer.without_new_docstring(original, suite, parent): the result is `suite` itself unless the owner of the block can have a docstring
+    (Module, FunctionDef, AsyncFunctionDef, ClassDef), the first remaining statement is a string statement and the first original statement was not:
+    then a `0` expression statement attached to the owner is put in front.  In every case the first statement of the result is a string statement
+    only if the first statement of the original block was one (no docstring is created)."""
+    P.install_symconst_type_support()
+    mod = source.import_module(ST)
+    name = 'C05/SuiteTransformer.without_new_docstring'
+    pruned = set()
+
+    def run(ctx):
+        policy = TransformPolicy()
+        interp = Interp(ctx, policy=policy)
+        install_common(interp, policy, ctx, mod.SuiteTransformer)
+        o = interp.instantiate(mod.SuiteTransformer, [], {})
+        from pyvc.interp import _keyname
+
+        def symlist(nm):
+            lst = ctx.new_obj('list', name=nm)
+            ld = ctx.data(lst)
+            ld.items = {}
+            ld.symlen = z3.Int('n_' + nm)
+            ctx.assume(ld.symlen >= 1)
+            ld.elem_factory = lambda key: ctx.new_node(STMT_TAGS, name='%s_%s' % (nm, _keyname(key)))
+            return lst
+        original, suite = symlist('original'), symlist('suite')
+        parent = ctx.new_node(set(tag_universe()['names']), name='parent')
+
+        def is_string_statement(st):
+            """z3 Bool over the materialised fields (Expr whose value is a str Constant)"""
+            d = ctx.data(st)
+            if 'Expr' not in d.tags:
+                return z3.BoolVal(False)
+            v = d.fields.get('value')
+            if not isinstance(v, Obj):
+                # the code never looked at it: it decided on the class of the statement alone
+                return z3.And(d.tagvar == tag_const('Expr'), z3.Bool('unread_value_is_string_%s' % d.name)) if d.tagvar is not None else z3.Bool('unread_value_is_string_%s' % d.name)
+            vd = ctx.data(v)
+            c = vd.fields.get('value')
+            isstr = z3.BoolVal(False)
+            if isinstance(c, SymConst):
+                isstr = z3.And(vd.tagvar == tag_const('Constant') if vd.tagvar is not None else z3.BoolVal('Constant' in vd.tags), c.kind == 6)
+            return z3.And(d.tagvar == tag_const('Expr') if d.tagvar is not None else z3.BoolVal(True), isstr)
+        r = interp.call(interp.getattr(o, 'without_new_docstring'), [original, suite, parent], {})
+        pruned.update(interp.pruned)
+        pd = ctx.data(parent)
+        s0 = interp.list_elem(suite, 0)
+        o0 = interp.list_elem(original, 0)
+        owner = z3.Or([pd.tagvar == tag_const(t) for t in ('Module', 'FunctionDef', 'AsyncFunctionDef', 'ClassDef')])
+        would_create = z3.And(owner, is_string_statement(s0), z3.Not(is_string_statement(o0)))
+        if r == suite:
+            ctx.check(name + '/unchanged-only-when-no-docstring-is-created', z3.Not(would_create), kind='post',
+                      detail='the remaining statements are returned as they are although the first one is a string statement that was not first before')
+            return
+        cat = ctx.data(r).extra.get('concat') if isinstance(r, Obj) and ctx.data(r).kind == 'list' else None
+        ok_shape = cat is not None and cat[1] == suite and is_zero_expr(ctx, cat[0])
+        ctx.check(name + '/result-is-a-zero-expression-followed-by-the-remaining-statements', ok_shape, kind='post', detail='returned %r' % (r,))
+        ctx.check(name + '/placeholder-only-where-a-docstring-would-be-created', would_create, kind='post',
+                  detail='a `0` statement is added although no string statement would become the docstring (an option performs only its documented rewrite)')
+        adds = [ev for ev in policy.events if ev[0] == 'add_child']
+        ctx.check(name + '/placeholder-is-attached-to-the-block-owner', len(adds) == 1 and adds[0][2] == parent, kind='post', detail=repr(adds))
+    ex = Explorer()
+    ex.explore(run)
+    return finish(ex, name, [source.describe(ST + ':SuiteTransformer.without_new_docstring')], pruned)
 
 
 # ---------------------------------------------------------------------------------------------------------------------
@@ -405,7 +496,9 @@ def task_remove_object():
                     ({'ExceptHandler'}, lambda: (fld('name') == OBJ) if fld('name') is not None else z3.BoolVal(False)),
                     ({'MatchAs', 'MatchStar'}, lambda: (fld('name') == OBJ) if fld('name') is not None else z3.BoolVal(False)),
                     ({'MatchMapping'}, lambda: (fld('rest') == OBJ) if fld('rest') is not None else z3.BoolVal(False)),
-                    ({'alias'}, lambda: z3.Or(fld('name') == z3.StringVal('*'), fld('name') == OBJ, (fld('asname') == OBJ) if fld('asname') is not None else z3.BoolVal(False))),
+                    ({'alias'}, lambda: z3.Or(fld('name') == z3.StringVal('*'), fld('name') == OBJ, z3.PrefixOf(z3.StringVal('object.'), fld('name')),
+                                              (fld('asname') == OBJ) if fld('asname') is not None else z3.BoolVal(False))),
+                    ({'TypeVar', 'TypeVarTuple', 'ParamSpec'}, lambda: fld('name') == OBJ),
                     ({'Global', 'Nonlocal'}, lambda: z3.Bool('contains_%s_object' % ctx.data(fld('names')).name))):
                 if ed.tags & tags and ctx.branch(z3.Or([ed.tagvar == tag_const(t) for t in sorted(ed.tags & tags)])):
                     interp.narrow(e, ed.tags & tags)
